@@ -504,7 +504,7 @@ class RaggedArray(IndexableArray, np.lib.mixins.NDArrayOperatorsMixin):
         return np.minimum.reduce(self, axis=1)
 
     @reduction(allowed_axis=(1, -1))
-    def argmax(self):
+    def argmax(self, axis=None):
         m = self.max(axis=-1, keepdims=True)
         rows, cols = np.nonzero(self == m)
         _, idxs = np.unique(rows, return_index=True)
